@@ -739,7 +739,7 @@ theorem chunks_cons_mu (cfg : SWCfg) (compress : Nat → Bytes → Bytes) (mu : 
        let sp := splitPages (perRec.length + 1) cs perRec
        let em := specWriteLog.chunks.emit cfg compress (some mu) rgi c codec ci sp.1 0 sp.2
        let r := specWriteLog.chunks cfg compress (some mu) rgi recs rest (ci + 1) em.2.2.2 (pos + em.1.length)
-       (TVal.struct [(2, .int 6 pos), (3, spMdTI cfg c k (perRec.map List.length).sum ((em.1.length : Int) + em.2.2.1) em.1.length pos)] :: r.1,
+       (TVal.struct [(2, .int 6 (cfg.fileOff pos em.1.length)), (3, spMdTI cfg c k (perRec.map List.length).sum ((em.1.length : Int) + em.2.2.1) em.1.length pos)] :: r.1,
         em.1 ++ r.2.1, em.2.1 ++ r.2.2.1, r.2.2.2)) =
       (let perRec := recs.map fun r => r.getD ci []
        let sp := splitPages (perRec.length + 1) cs perRec
@@ -809,7 +809,7 @@ theorem chunks_spec_mu (cfg : SWCfg) (compress : Nat → Bytes → Bytes) (mu : 
     obtain ⟨i1, i2, ⟨metas, i3, i4⟩, i5⟩ := chunks_spec_mu cfg compress mu rgi recs rest (ci + 1) em.2.2.2 (pos + em.1.length)
     rw [e2, ← hcs] at i1 i2 i3 i4 i5
     rw [e2, ← hcs]
-    refine ⟨?_, ?_, ⟨spChunkMeta c (muCodec mu rgi ci codec) ((recs.map fun r => r.getD ci []).map List.length).sum
+    refine ⟨?_, ?_, ⟨spChunkMeta cfg c (muCodec mu rgi ci codec) ((recs.map fun r => r.getD ci []).map List.length).sum
       ((em.1.length : Int) + em.2.2.1) em.1.length pos :: metas, ?_, ?_⟩, ?_⟩
     · simp only [muChunks, gBytes_cons, ← hg, i1]
       rw [e1]
